@@ -49,6 +49,7 @@ type sessRun struct {
 	done     chan struct{} // all threads finished
 	finished atomic.Bool   // all threads finished without error
 	timeouts atomic.Int64
+	stallMsg string // echo: a reply took longer than RoundBoundMs (guarded by mu)
 }
 
 func (s *sessRun) fail(format string, a ...interface{}) {
@@ -111,7 +112,7 @@ func plan(idx int, spec SessSpec) *sessRun {
 	s.data[0] = r.Bytes(spec.CBytes)
 	s.data[1] = r.Bytes(spec.SBytes)
 	switch spec.Shape {
-	case "reqresp", "idle", "upload", "download":
+	case "reqresp", "idle", "upload", "download", "echo":
 		rounds := spec.Rounds
 		if rounds < 1 {
 			rounds = 1
@@ -128,6 +129,9 @@ func plan(idx int, spec SessSpec) *sessRun {
 			c = append(c, op{kind: 'r', n: resp[i]})
 			v = append(v, op{kind: 'r', n: req[i]})
 			v = append(v, writes(r, resp[i], 0, spec.MaxWrite)...)
+			if spec.Shape == "echo" && i+1 < rounds {
+				c = append(c, op{kind: 's', d: ms(spec.PaceMs)})
+			}
 			if spec.Shape == "idle" && i+1 < rounds {
 				// longer than the heartbeat interval: heartbeat acks appear
 				c = append(c, op{kind: 's', d: time.Duration(6500+r.Intn(6000)) * time.Millisecond})
@@ -284,7 +288,7 @@ func runSchedule(sc *Schedule) *schedResult {
 	t0 := time.Now()
 	nw := simnet.New()
 	nw.Latency = ms(sc.LatencyMs)
-	opts := rig.Opts{Transport: "udp", MTU: sc.MTU, Multiplex: sc.Multiplex, Net: nw,
+	opts := rig.Opts{Transport: "udp", MTU: sc.MTU, ServerMTU: sc.ServerMTU, Multiplex: sc.Multiplex, Net: nw,
 		ClientPattern: lePattern(sc.LEMode, sc.LERot), ServerPattern: lePattern(sc.LEMode, sc.LERot)}
 	var rg *rig.Rig
 	var err error
@@ -423,6 +427,7 @@ func runSchedule(sc *Schedule) *schedResult {
 				}
 			case 'r':
 				left := o.n
+				rt0 := time.Now()
 				for left > 0 {
 					if s.closing.Load() {
 						return
@@ -453,6 +458,16 @@ func runSchedule(sc *Schedule) *schedResult {
 						}
 						s.fail("side %d Read returned (%d, %v) with %d bytes outstanding", side, n, err, left)
 						return
+					}
+				}
+				if bound := s.spec.RoundBoundMs; bound > 0 && side == 0 {
+					// the request was written just before: the reply must arrive promptly on a loss-free network
+					if el := time.Since(rt0); el > ms(bound) {
+						s.mu.Lock()
+						if s.stallMsg == "" {
+							s.stallMsg = fmt.Sprintf("an echo exchange of %d bytes took %v of virtual time (bound %d ms) on a loss-free network", o.n, el.Round(time.Millisecond), bound)
+						}
+						s.mu.Unlock()
 					}
 				}
 			}
